@@ -29,8 +29,19 @@ WellFormed(t, drop) == ~DupIds(t) /\ ~UnknownParent(t) /\ ~SelfLink(t) /\ drop =
 RowOf(t, k) == CHOOSE r \in 1..t.R : t.idn[r] = k
 NodeOf(t, kind, k) == IF kind = "int" THEN IntIds[k]
                       ELSE Cardinality({t.idn[r] : r \in 1..RowOf(t, k)})
+\* source track labels (a mapped property like any other): 40 + first row of the row's unbranched segment
+Kids(t, k) == {r \in 1..t.R : t.par[r] = k}
+SegLinks(t) == {<<t.par[r], t.idn[r]>> : r \in {q \in 1..t.R : t.par[q] # 0 /\ Cardinality(Kids(t, t.par[q])) = 1}}
+RECURSIVE GrowN(_, _)
+GrowN(L, X) == LET Y == X \cup {e[2] : e \in {f \in L : f[1] \in X}} \cup {e[1] : e \in {f \in L : f[2] \in X}}
+               IN IF Y = X THEN X ELSE GrowN(L, Y)
+SrcTid(t, r) == LET S == GrowN(SegLinks(t), {t.idn[r]})
+                    rows == {q \in 1..t.R : t.idn[q] \in S}
+                IN 40 + (CHOOSE q \in rows : \A p \in rows : q <= p)
 \* ---- the property: what a faithful import contains -------------------------------
 ExpNodes(t, kind) == {<<NodeOf(t, kind, t.idn[r]), t.time[r], 10 * r + 1, 10 * r + 2, 100 + r>> : r \in 1..t.R}
+\* track labels of the source, for tables that carry a (valid) track id column
+ExpTids(t, kind) == {<<NodeOf(t, kind, t.idn[r]), SrcTid(t, r)>> : r \in 1..t.R}
 ExpEdges(t, kind) == {<<NodeOf(t, kind, t.par[r]), NodeOf(t, kind, t.idn[r])>> : r \in {q \in 1..t.R : t.par[q] # 0}}
 ImportOK(t, kind, drop, res) ==
     IF WellFormed(t, drop)
